@@ -11,4 +11,4 @@ package arp
 // cache are reached through interfaces: their effect is unknown (everything may change).
 //@ func (*endpoint).HandlePacket props C07 C12
 //@   requires e != nil && r != nil && e.linkEP != nil && e.linkAddrCache != nil
-//@   modifies everything
+//@   modifies everything()
